@@ -46,7 +46,7 @@ use check::TypeError;
 use circuit::Circuit;
 use compile::CompilerError;
 use convert::ConverterError;
-use eval::{EvalError, Evaluator, resolve_const_type};
+use eval::{EvalError, Evaluator, resolve_const_defs, resolve_const_type};
 use literal::Literal;
 use parse::ParseError;
 use scan::{ScanError, scan};
@@ -258,7 +258,7 @@ impl GarbleProgram {
             return Err(EvalError::InvalidArgIndex(arg_index));
         };
         let ty = resolve_const_type(&param.ty, &self.const_sizes);
-        if !literal.is_of_type(&self.program, &ty) {
+        if !literal.is_of_type(&resolve_const_defs(&self.program, &self.const_sizes), &ty) {
             return Err(EvalError::InvalidLiteralType(
                 Box::new(literal),
                 Box::new(ty),
@@ -278,7 +278,8 @@ impl GarbleProgram {
         };
         let ty = resolve_const_type(&param.ty, &self.const_sizes);
         let literal =
-            Literal::parse(&self.program, &ty, literal).map_err(EvalError::LiteralParseError)?;
+            Literal::parse(&resolve_const_defs(&self.program, &self.const_sizes), &ty, literal)
+                .map_err(EvalError::LiteralParseError)?;
         Ok(GarbleArgument(literal, &self.program, &self.const_sizes))
     }
 
